@@ -152,7 +152,13 @@ def check_triple(mod, x, which, acc):
             acc.count('pybind_base_run_failed(decided elsewhere)')
             return []
         B_text, B = py_obs(text, [x['cpp']])
-        xkeys = [k for k in A if k[0] in ('class', 'classbody') and k[2] == x['name'] and k not in B]
+        # artefacts of X: its class statement(s) (a typedef and a listed instantiation may denote the same C++
+        # class: the ignore key is the C++ spelling), the chained body of a class with enums, and its enums
+        same_cpp = {k[2] for k, v in A.items() if k[0] == 'class' and v.replace(' ', '').startswith(
+            'py::class_<' + x['cpp'].replace(' ', '') + ',')}
+        same_cpp.add(x['name'])
+        xkeys = [k for k in A if ((k[0] in ('class', 'classbody') and k[2] in same_cpp) or
+                                  (k[0] == 'enum' and k[1] in {n.lower() for n in same_cpp})) and k not in B]
         if not xkeys:
             vs.append({'what': 'ignored class still bound (pybind)', 'class': x['cpp']})
         for k in A:
@@ -166,7 +172,7 @@ def check_triple(mod, x, which, acc):
         extra = [k for k in B if k not in A]
         if extra:
             vs.append({'what': 'ignoring a class added blocks', 'blocks': repr(extra[:3])})
-        if deleted is not None:
+        if deleted is not None and len(same_cpp) == 1:
             C_text = tool.pybind_text(render.render(deleted))
             acc.count('ignore_vs_delete')
             if C_text != B_text:
@@ -274,7 +280,7 @@ def run_case(seed, tier, acc, only=None):
     out = []
     picks = []
     for which in ('pybind', 'matlab'):
-        ok = [c for c in cands if not (which == 'pybind' and c['has_enum'])
+        ok = [c for c in cands if True
               and not (which == 'matlab' and (not c['ns']) and not MATLAB_GLOBAL_OK)
               and not (which == 'matlab' and c.get('decl_only'))]
         r.shuffle(ok)
